@@ -18,7 +18,7 @@ func init() {
 	fw.Register(&fw.Check{
 		ID:    "C10",
 		Level: "exploration",
-		Rule: "literals are generated from bit patterns: all 65536 half patterns (0xH form), structured sets for float/double/x86_fp80/fp128/ppc_fp128 (zeros, smallest/largest subnormal and normal, ones, infinities, exponent sweep x {zero, all-ones, alternating} mantissa, quiet/signalling NaNs with payload bits at every position) plus PRNG patterns, each in the kind's hex form and, where exact, in decimal/scientific form. For each literal L that LLVM accepts: NewFloatFromString must succeed, L'=Ident() must be accepted by LLVM and LLVM's own printing of `K L'` must equal its printing of `K L` (same bits, LLVM's printer is canonical), and the library's re-parse of L' must be the same constant (value, sign, NaN flag); the same literal also goes through asm.ParseString. " +
+		Rule: "literals are generated from bit patterns: all 65536 half patterns (0xH form), structured sets for float/double/x86_fp80/fp128/ppc_fp128 (zeros, smallest/largest subnormal and normal, ones, infinities, exponent sweep (every exponent of float; of double every 52nd in quick and every one in thorough; a stride for the 15-bit exponents) x {zero, one, all-ones, alternating, single-bit} mantissa, quiet/signalling NaNs with payload bits at every position) plus PRNG patterns, each in the kind's hex form and, where exact, in decimal/scientific form. For each literal L that LLVM accepts: NewFloatFromString must succeed, L'=Ident() must be accepted by LLVM and LLVM's own printing of `K L'` must equal its printing of `K L` (same bits, LLVM's printer is canonical), and the library's re-parse of L' must be the same constant (value, sign, NaN flag); the same literal also goes through asm.ParseString. " +
 			"non-trivial = every LLVM-accepted literal; distinct by (kind, spelling)",
 		Gen:           genC10,
 		MinNontrivial: 10000,
